@@ -441,7 +441,8 @@ theorem parse_eval (lim : Nat) (t s0 : Str) (neg : Bool) (r : Int × Str) (u : O
 /-- **acceptance, strong form**: a text with parts `p` is accepted and the stored fields are the denoted ones -/
 theorem parse_of_parts (lim : Nat) (t : Str) (p : Parts) (h : NumberParts t p) :
     ∃ f, parseNumbZL lim t = some f ∧ f.neg = p.neg ∧ natOfDigits f.digits = p.mantissa ∧
-      f.su = p.su.map (fun s => digitVals (trimZeros s)) ∧ f.scale = expContrib lim p.exp + (p.fp.length : Int) := by
+      f.su = p.su.map (fun s => digitVals (trimZeros s)) ∧ f.scale = expContrib lim p.exp + (p.fp.length : Int) ∧
+      f.digits = digitVals ((trimLead (if p.fp = [] then p.ip else p.ip ++ UCHAR_DECIMAL :: p.fp)).filter (· ≠ UCHAR_DECIMAL)) := by
   cases h with
   | mk sg m x u neg ip fp ex su hs hm hx hu =>
     have hsu := suText_head u su hu
@@ -464,10 +465,11 @@ theorem parse_of_parts (lim : Nat) (t : Str) (p : Parts) (h : NumberParts t p) :
         | nil => exact absurd rfl hne
         | cons _ _ => simp
       have hev := parse_eval lim _ _ neg _ _ hts hne0 (by rw [a4]; exact hE) hS rfl
-      refine ⟨_, hev, rfl, ?_, hsumap, ?_⟩
+      refine ⟨_, hev, rfl, ?_, hsumap, ?_, ?_⟩
       · simp only [Parts.mantissa]
         exact mantDigits_value _ m [] hd (by intro c hc; simp at hc) (Or.inl ⟨hreg, rfl⟩)
       · simp only [hnd]; simp
+      · simp only [mantDigits, hreg, if_true]
     | point _ _ hd hf hne =>
       obtain ⟨a1, a2, a3, a4⟩ := mant_point ip fp (x ++ u) hd hf htail
       have hdec : UCHAR_DECIMAL = 46 := rfl
@@ -482,11 +484,16 @@ theorem parse_of_parts (lim : Nat) (t : Str) (p : Parts) (h : NumberParts t p) :
         rw [List.length_eq_zero_iff] at h1 h2
         rw [h1, h2]; rfl
       have hev := parse_eval lim _ _ neg _ _ hts hne0 (by rw [a4]; exact hE) hS rfl
-      refine ⟨_, hev, rfl, ?_, hsumap, ?_⟩
-      · simp only [Parts.mantissa]
-        apply mantDigits_value _ ip fp hd hf
+      have hreg : mantRegion (ip ++ 46 :: fp ++ (x ++ u)) = if fp = [] then ip else ip ++ UCHAR_DECIMAL :: fp := by
         unfold mantRegion
         rw [hnd, a1, a3]
+        cases fp with
+        | nil => rfl
+        | cons d r => rfl
+      refine ⟨_, hev, rfl, ?_, hsumap, ?_, ?_⟩
+      · simp only [Parts.mantissa]
+        apply mantDigits_value _ ip fp hd hf
+        rw [hreg]
         cases fp with
         | nil => left; exact ⟨rfl, rfl⟩
         | cons d r => right; rfl
@@ -494,6 +501,7 @@ theorem parse_of_parts (lim : Nat) (t : Str) (p : Parts) (h : NumberParts t p) :
         cases fp with
         | nil => simp
         | cons d r => simp
+      · simp only [mantDigits, hreg]
 
 /-- **acceptance, converse**: every accepted text has the parts of the numeric syntax -/
 theorem parts_of_parse (lim : Nat) (t : Str) (f : NumbFields) (h : parseNumbZL lim t = some f) : ∃ p, NumberParts t p := by
